@@ -297,6 +297,25 @@ FRect(p, i, real, base, ylo, yhi) ==
 FExtent(p, real) == SumFn([c \in Kids(p, 0) |-> FSize(p, c, IF real = "gap" THEN 1 ELSE 0)])
                     + (IF real = "gap" THEN Cardinality(Kids(p, 0)) - 1 ELSE 0)
 
+(* REASSEMBLY.  A polygon assembled from a sub-multiset S of the same loops is a function of the
+   loop geometry only - not of what the loop objects went through before (depths left behind by an
+   earlier polygon).  The forest induced on S: a loop's depth is the number of its ancestors in S,
+   its parent the nearest ancestor in S.                                                          *)
+RECURSIVE Anc(_, _)
+Anc(p, i) == IF p[i] = 0 THEN {} ELSE {p[i]} \cup Anc(p, p[i])
+ReDepth(p, S, i) == Cardinality(Anc(p, i) \cap S)
+ReParent(p, S, i) == LET a == Anc(p, i) \cap S
+                     IN  IF a = {} THEN 0 ELSE CHOOSE j \in a : \A k \in a : FDepth(p, k) <= FDepth(p, j)
+ReDesc(p, S, i) == Cardinality(Desc(p, i) \cap S)
+\* the witness cell of loop j (in j and its ancestors only) is inside the polygon of S
+ReInside(p, S, j) == Cardinality((Anc(p, j) \cup {j}) \cap S) % 2 = 1
+\* the selections replayed after the full assembly, in this order: every loop alone (a former hole
+\* alone must be a shell), everything but one loop, the roots, the odd-depth loops
+ReSelections(p) ==
+    LET n == Len(p)
+    IN  [k \in 1..n |-> {k}] \o [k \in 1..n |-> (1..n) \ {k}]
+        \o << Kids(p, 0), {i \in 1..n : FDepth(p, i) % 2 = 1} >>
+
 \* what PolygonFromLoops must compute
 WantDepth(p, i) == FDepth(p, i)
 WantHole(p, i) == FDepth(p, i) % 2 = 1
